@@ -66,7 +66,7 @@ class JMHAdapter(GaugeAdapter):
             match = self.re_result_line.match(line)
             if match:
                 value = float(match.group(3))
-                unit = match.group(4)
+                unit = match.group(4).strip()
                 criterion = "total"
 
                 point = DataPoint(run_id)
